@@ -134,7 +134,21 @@ def run(tier, seed, replay=None):
         os.environ["GOMAXPROCS"] = "8"
         rctx = srv.SrvCtx(scratch, race_harness, specdir, proto)
         if full:
-            rworlds = worlds
+            # the race build is an order of magnitude slower: every connection count once, the largest ones shortened
+            rworlds = []
+            seen_n = set()
+            for w in worlds:
+                if len(w["conns"]) in seen_n:
+                    continue
+                seen_n.add(len(w["conns"]))
+                w2 = json.loads(json.dumps(w))
+                w2["name"] += "-race"
+                if len(w2["conns"]) >= 32:
+                    for cj in w2["conns"]:
+                        cut = [i for i, r in enumerate(cj["reqs"]) if r["op"] == "BARRIER"]
+                        if len(cut) >= 2 and cut[-1] - cut[0] > 30:
+                            cj["reqs"] = cj["reqs"][:cut[0] + 30] + cj["reqs"][cut[-1]:]
+                rworlds.append(w2)
         else:
             # one 8-connection and one (shorter) 32-connection world: the race build is an order of magnitude slower
             short = json.loads(json.dumps(worlds[-1]))
